@@ -27,7 +27,24 @@ from aws_durable_execution_sdk_python.lambda_service import (  # noqa: E402
     StepDetails, StepOptions, TimestampConverter, WaitDetails, WaitOptions,
 )
 
+if h.MODE == "sx":
+    # CrossHair substitutes its own pure-Python timedelta when traced code CALLS datetime.timedelta; mixing it with the real timedelta produced by
+    # `aware_datetime - _EPOCH` raises a spurious TypeError.  Inside lambda_service the name `datetime` is therefore bound to a shim whose timedelta()
+    # builds the real C object outside the tracer (timestamps are concrete in these lemmas; the float/integer kernels are decided by the z3 queries below).
+    class _DTShim:
+        datetime = _dt.datetime
+        UTC = _dt.UTC
+
+        @staticmethod
+        def timedelta(*a, **k):
+            from crosshair.core import NoTracing
+            with NoTracing():
+                return _dt.timedelta(*a, **k)
+
+    LS.datetime = _DTShim
+
 ASSUMPTIONS = [
+    "inside lambda_service the datetime module is a shim returning real C datetime/timedelta objects (CrossHair's substituted timedelta cannot be mixed with real ones); replays use the real module",
     "strings len <= 2, ints unbounded, enums by index (every member), Optionals both ways",
     "timestamps in the SX lemmas are 4 concrete aware datetimes (UTC and +05:30/-08:00 offsets, ms precision) or None: datetime arithmetic is C code; "
     "the float kernel int(dt.timestamp()*1000) / fromtimestamp(ms/1000) is decided separately by the z3 FP query ts_kernel",
